@@ -17,3 +17,42 @@ RC.append(("np.linspace with array-valued start/stop (NumPy broadcasts them): th
             ("C15", "linspace", "fwd", "silently-wrong", "shape_rank:~[12]"), ("C15", "linspace", "fwd", "wrong-shape", "shape_rank:~[12]")]))
 RC.append(("forward-mode np.diff with prepend/append: the 'same' rule applies diff to the tangent *with the primal prepend/append values* instead of zeros",
            [("C15", "diff", "fwd", "silently-wrong", "template_len:4")]))
+# ----- C09: complex-valued operands (triaged classes)
+_MIX = "arg_cplx:real,ops_cplx:~.*c.*"
+RC.append(("gradient w.r.t. a REAL operand that is combined with complex operands comes back complex (no match_complex in the rule), so it does not live in the argument's space",
+           [("C09", p, "rev", "wrong-shape", _MIX) for p in ("append", "array", "column_stack", "concatenate", "dstack", "hstack", "vstack", "row_stack", "r_", "c_", "select",
+                                                             "einsum", "inner", "linspace", "cross", "solve", "stack", "outer", "kron")]))
+RC.append(("forward mode of a binary/selection function with one real and one complex operand: the tangent keeps the real operand's kind instead of the complex output's",
+           [("C09", p, "fwd", "wrong-shape", "ops_cplx:~(cr|rc|rcr|crc)") for p in ("maximum", "minimum", "fmax", "fmin", "where", "select", "linspace")]))
+RC.append(("np.array([x, y], ndmin=3) (see C01 entry) with complex members", [("C09", "array", "fwd", "wrong-value", "ndmin:True,list_input:True"),
+                                                                           ("C09", "array", "rev", "wrong-shape", "ndmin:True,list_input:True")]))
+RC.append(("np.cross with broadcasting operands (see C01 entry), complex operands", [("C09", "cross", "rev", "wrong-shape", "broadcast:True")]))
+RC.append(("np.diag of a non-square matrix (see C01 entry)", [("C09", "diag", "rev", "wrong-shape", "rank:2,square:False")]))
+RC.append(("np.make_diagonal allocates a float array, so complex input loses its imaginary part: wrong primal value and real-only derivatives (also behind np.diagonal's VJP)",
+           [("C09", "make_diagonal", "rev", "wrong-shape", "arg_cplx:complex"), ("C09", "make_diagonal", "fwd", "wrong-shape", "arg_cplx:complex"),
+            ("C09", "diagonal", "rev", "wrong-shape", "make_diagonal_supported:True,arg_cplx:complex")]))
+RC.append(("np.diagonal(axis1=-1, axis2=-2) with unequal last dimensions (see C01 entry)", [("C09", "diagonal", "rev", "wrong-shape", "make_diagonal_supported:True,square:False")]))
+RC.append(("np.kron beyond 2-D (see C01 entry)", [("C09", "kron", "rev", "wrong-value", "max_rank:~[3-9]")]))
+RC.append(("np.linalg.norm of a complex array: the reverse rule returns the conjugate of the documented gradient and the forward rule a complex tangent for a real output",
+           [("C09", "norm", "rev", "wrong-value", "arg_cplx:complex"), ("C09", "norm", "fwd", "wrong-shape", "arg_cplx:complex"),
+            ("C09", "norm", "rev", "wrong-shape", "axis_sign:tuple-neg"), ("C09", "norm", "rev", "wrong-value", "axis_sign:tuple-neg"),
+            ("C09", "norm", "rev", "wrong-value", "ord:inf"), ("C09", "norm", "fwd", "wrong-value", "ord:inf")]))
+RC.append(("forward-mode sort/partition of >=2-D arrays (see C02 entry)",
+           [("C09", p, "fwd", k, "rank:~[2-9]") for p in ("sort", "partition") for k in ("wrong-shape", "wrong-value")]))
+RC.append(("np.linalg.pinv of a complex matrix: the rule uses plain transposes where conjugate transposes are needed", [("C09", "pinv", "rev", "wrong-value", "arg_cplx:complex")]))
+RC.append(("np.linalg.slogdet of a complex matrix: the cotangent of the (complex, non-constant) sign output is ignored", [("C09", "slogdet", "rev", "wrong-value", "arg_cplx:complex,use:~(\\[0\\]|tuple)")]))
+RC.append(("np.linalg.solve with broadcasting batch dimensions (see C01 entry), complex operands",
+           [("C09", "solve", "rev", "wrong-shape", "batch_broadcast:True"), ("C09", "solve", "rev", "wrong-value", "batch_broadcast:True,rhs_vector:True")]))
+RC.append(("real FFT family (rfft/irfft/rfft2/irfft2/rfftn/irfftn): the normalisation factor is only right for norm=None/'ortho' given by keyword; norm='backward'/'forward', "
+           "positional n/s/axes/norm, and crops/pads of the last axis give silently wrong gradients",
+           [("C09", p, "rev", "wrong-value", w) for p in ("rfft", "irfft", "rfft2", "irfft2", "rfftn", "irfftn")
+            for w in ("norm:~(backward|forward)", "style:pos", "n:~(short|long|eq)", "s:~(short|long|eq)", "axes:~(repeated|tuple-neg|tuple-pos|tuple-mixed)")]))
+RC.append(("np.full((), x) with a (1,)-shaped fill value (see C05 entry)", [("C09", "full", "rev", "wrong-shape", "fill:arr1")]))
+RC.append(("np.array(complex_value, dtype=float): NumPy drops the imaginary part; the gradient w.r.t. the complex argument comes back real",
+           [("C09", "array", "rev", "wrong-shape", "arg_cplx:complex,form:~.*dtype.*")]))
+RC.append(("vstack/hstack/column_stack/dstack of a real traced array with a complex constant: gradient w.r.t. the real array is complex",
+           [("C09", p, "rev", "wrong-shape", "mixed:True,arg_cplx:real") for p in ("vstack", "hstack", "column_stack", "dstack", "row_stack")]))
+RC.append(("real FFTs called with n= / s= by keyword: the rule's argument parser names that parameter differently, so an odd or cropped length is not seen (no NotImplementedError, wrong factors)",
+           [("C09", p, "rev", "wrong-value", "n:odd") for p in ("rfft", "irfft")]))
+RC.append(("np.select of 0-d choices with mixed real/complex members: the re-implementation rebuilds the result from a real-typed list and loses the imaginary part",
+           [("C09", "select", "rev", "wrong-shape", "rank:0,ops_cplx:~rc.*"), ("C09", "select", "fwd", "wrong-shape", "rank:0,ops_cplx:~rc.*")]))
